@@ -96,6 +96,9 @@ def run(ctx):
     compress_rule(ctx, syn)
     expand_rule(ctx, syn)
     multiarms_rule(ctx, syn)
+    from props.c02 import scope_rule
+    import mirq as _mirq
+    scope_rule(ctx, _mirq.Program(ctx.facts.mir()), rid="C01.SCOPE")   # a wiped sibling row is a reverse look-up that misses live annotations
     from props.c02 import pred_rule
     pred_rule(ctx, syn, rid="C01.PRED")   # the forward list loses exactly the (set, data) entry whose index entry is removed with it
     guard_rule(ctx, syn)
